@@ -66,6 +66,9 @@ func (j *judge) commitTrigger(oldSha string) string {
 	if ex := j.c.spec.Gen.Exotic; ex != "" && has(labels, ex) {
 		return ex
 	}
+	if j.c.spec.Gen.Dates != "" {
+		return j.c.spec.Trigger // the date layout is the coordinate of the case
+	}
 	for _, l := range []string{"octopus-merge", "merge", "orphan-root"} {
 		if has(labels, l) || has(labels, l+"-with-own-changes") {
 			return l
